@@ -274,6 +274,63 @@ mod verif_c09 {
         yield_case(false);
     }
 
+    // ---- step 2b: captured variables stay shared across a suspension (also C06) ----------------------
+    /// A and B each have a local captured by a closure (an OPEN upvalue on slot 1 of their stacks) when B
+    /// is called and when it yields. After each switch both variables are still open - the closure and
+    /// the declaring scope still share the very stack slot: a write to the slot is seen through the
+    /// upvalue and vice versa - and each fiber's open list is untouched.
+    #[kani::proof]
+    #[kani::unwind(5)]
+    #[kani::stub(std::fmt::format, fmt_stub)]
+    #[kani::stub(crate::vm::Vm::new_root_obj_err_from_error, crate::vm::verif_vm::err_instance_stub)]
+    #[kani::stub(crate::vm::Vm::new_error_from_value, crate::vm::verif_vm::error_from_value_stub)]
+    fn c09_captured_variables_stay_open_across_switches() {
+        use crate::object::ObjUpvalue;
+        let mut sa = FiberStore::empty();
+        let mut sb = FiberStore::empty();
+        let mut nat_call = Placed::new(ObjNative::new(Gc::dangling(), fiber_call as NativeFn, true));
+        let mut nat_yield = Placed::new(ObjNative::new(Gc::dangling(), fiber_yield as NativeFn, true));
+        let mut w = world(&mut sa, &mut sb, 1);
+        let (a, b) = (w.a.fiber, w.b.fiber);
+        let x: f64 = kani::any();
+        let v: f64 = kani::any();
+        // A's local (slot 1) is captured
+        let slot_a = &mut a.borrow_mut().stack[1] as *mut Value;
+        let mut up_a = Placed::new(RefCell::new(ObjUpvalue::new(slot_a)));
+        a.borrow_mut().open_upvalues = Some(up_a.gc());
+        // A: b.call(x)
+        a.borrow_mut().stack.push(Value::ObjFiber(b));
+        a.borrow_mut().stack.push(Value::Number(x));
+        let r1 = vm_call_native(&mut w.vm, nat_call.gc(), 1);
+        assert!(r1.is_ok() && vm_fiber(&w.vm) == Some(b), "B runs");
+        assert!(up_a.gc().borrow().is_open() && a.borrow().open_upvalues == Some(up_a.gc()), "calling another fiber leaves the caller's captured variable open");
+        // B's parameter (slot 1) is captured, then B yields v
+        let slot_b = &mut b.borrow_mut().stack[1] as *mut Value;
+        let mut up_b = Placed::new(RefCell::new(ObjUpvalue::new(slot_b)));
+        b.borrow_mut().open_upvalues = Some(up_b.gc());
+        let ip = ip_b(&w);
+        vm_set_ip(&mut w.vm, ip);
+        b.borrow_mut().stack.push(Value::Boolean(true));
+        b.borrow_mut().stack.push(Value::Number(v));
+        let r2 = vm_call_native(&mut w.vm, nat_yield.gc(), 1);
+        kani::cover!(r2.is_ok(), "reach");
+        assert!(r2.is_ok() && vm_fiber(&w.vm) == Some(a), "A runs again");
+        assert!(up_b.gc().borrow().is_open(), "yielding leaves the suspended fiber's captured variable open");
+        assert!(b.borrow().open_upvalues == Some(up_b.gc()) && up_b.gc().borrow().next.is_none(), "its open list is untouched");
+        assert!(up_a.gc().borrow().is_open() && a.borrow().open_upvalues == Some(up_a.gc()), "and so is the caller's");
+        // the closure and the scope still share the variable, both ways
+        let z: f64 = kani::any();
+        b.borrow_mut().stack[1] = Value::Number(z);
+        assert!(num(up_b.gc().borrow().get(), z), "a write by the suspended scope is seen through the closure");
+        let y: f64 = kani::any();
+        up_b.gc().borrow_mut().set(Value::Number(y));
+        assert!(num(b.borrow().stack[1], y), "a write through the closure reaches the suspended fiber's local");
+        assert!(num(up_a.gc().borrow().get(), LOCAL_A), "the caller's captured local is intact");
+        std::mem::forget(r1);
+        std::mem::forget(r2);
+        std::mem::forget(w);
+    }
+
     // ---- step 3: resuming a suspended fiber with / without an argument ------------------------------------
     fn resume_case(with_arg: bool) {
         let mut sa = FiberStore::empty();
